@@ -232,6 +232,10 @@ func (l *lexer) Lex(lval *yySymType) (tokenType int) {
 		tok, str := l.scanString(l.offset - 1)
 		lval.token = str
 		return tok
+	case 0:
+		// do not confuse a null character with the end of the query
+		l.token = "\x00"
+		return tokInvalid
 	default:
 		if ch >= utf8.RuneSelf {
 			r, size := utf8.DecodeRuneInString(l.source[l.offset-1:])
@@ -263,7 +267,10 @@ func (l *lexer) skipComment() bool {
 	for {
 		switch l.peek() {
 		case 0:
-			return true
+			if len(l.source) == l.offset {
+				return true
+			}
+			l.offset++
 		case '\\':
 			switch l.offset++; l.peek() {
 			case '\\', '\n':
